@@ -85,7 +85,8 @@ def gen_fields0(r):
         "ser": r.choice(U8) if r.random() < 0.6 else r.randrange(256),
         "payload": gen_payload(r),
         "anns": gen_anns(r),
-        "corr": None if r.random() < 0.5 else uuid.UUID(int=r.getrandbits(128)),
+        "corr": None if r.random() < 0.5 else (uuid.UUID(int=r.getrandbits(128)) if r.random() < 0.8 else
+                                               uuid.UUID(int=r.choice([0, 1, 2 ** 128 - 1, 2 ** 64, 0x50 << 120]))),   # the nil uuid is an id too
         "compression": r.random() < 0.5,
         "max": r.choice(MAXES),
         "frags": [r.choice([1, 2, 3, 5, 7, 39, 40, 41, 100, 65536]) for _ in range(r.randrange(1, 6))],
